@@ -237,6 +237,60 @@ def run_uncanonicalizable(case, part):
                            "a refusal, or one id", ids)
 
 
+def run_after_history(case, part, collect):
+    """Operations of OTHER features (versioning, revoking, marking, copying, storing, comparing, option-rich serialization) carried out on observables of one type, object and dict
+    forms; after every one of them the identifiers of freshly created observables of that type are recomputed against the specification (state on the class / module left behind)."""
+    import stix2
+    from stix2 import versioning
+    key = case["key"]
+    g = gen.Gen("2.1")
+    mn = {k: v for k, v in g.minimal(key).items() if k != "id"}
+    mx = {k: v for k, v in g.maximal(key).items() if k != "id"}
+    TS, TS2 = "2016-05-12T08:17:27.000Z", "2017-05-12T08:17:27.000Z"
+    try:
+        gid = stix2.parse(copy.deepcopy(mn), allow_custom=False).id
+    except harness.lib_errors():
+        return
+    sp = model.spec("2.1")
+    contributing = [n for n in sp.classes[key]["id_contributing"] if n in mn]
+    vobj = lambda: stix2.parse(dict(copy.deepcopy(mn), created=TS, modified=TS, revoked=False), allow_custom=True)   # an observable is versionable only with all three as custom properties
+    vdict = lambda: dict(copy.deepcopy(mn), id=gid, created=TS, modified=TS, revoked=False)
+    def store_trip():
+        from stix2 import MemoryStore
+        st = MemoryStore()
+        st.add(stix2.parse(copy.deepcopy(mn)))
+        return st.get(gid), st.query([stix2.Filter("type", "=", mn["type"])])
+    ops = [("new_version(object)", lambda: versioning.new_version(vobj(), allow_custom=True, x_note="n")),
+           ("new_version(dict)", lambda: versioning.new_version(vdict(), x_note="n")),
+           ("new_version(dict, modified given)", lambda: versioning.new_version(vdict(), modified=TS2)),
+           ("new_version(dict, contributing property changed)", lambda: versioning.new_version(vdict(), **{(contributing or ["type"])[0]: None})),
+           ("new_version(object, id changed)", lambda: versioning.new_version(vobj(), allow_custom=True, id=gid)),
+           ("revoke(dict)", lambda: versioning.revoke(vdict())),
+           ("revoke(object)", lambda: versioning.revoke(vobj())),
+           ("object.new_version", lambda: vobj().new_version(x_note="n", allow_custom=True)),
+           ("add_markings(object)", lambda: stix2.markings.add_markings(vobj(), "marking-definition--613f2e26-407d-48c7-9eca-b8e91df99dc9", None)),
+           ("add_markings(dict)", lambda: stix2.markings.add_markings(vdict(), "marking-definition--613f2e26-407d-48c7-9eca-b8e91df99dc9", None)),
+           ("deepcopy+compare", lambda: copy.deepcopy(stix2.parse(copy.deepcopy(mx))) == stix2.parse(copy.deepcopy(mx))),
+           ("serialize-options", lambda: [stix2.parse(copy.deepcopy(mx)).serialize(pretty=pr, include_optional_defaults=io) for pr in (False, True) for io in (False, True)]),
+           ("store-trip", store_trip),
+           ("remove_custom_stix", lambda: versioning.remove_custom_stix(vobj())),
+           ("explicit-id-construction", lambda: stix2.parse(dict(copy.deepcopy(mn), id=mn["type"] + "--3f7f0c5f-5d54-4292-94ea-ec1e1952be01"))),
+           ("bundle+observed-data", lambda: stix2.v21.Bundle(stix2.parse(copy.deepcopy(mn)), stix2.parse(copy.deepcopy(mx))).serialize())]
+    check_instance(part, copy.deepcopy(mn), key, dict(case, after=None), "after-history/none", collect)
+    for name, op in ops:
+        if case.get("op") and name != case["op"]:
+            continue
+        part.transitions += 1
+        try:
+            op()
+            part.outcome("history-op:done")
+        except harness.lib_errors():
+            part.outcome("history-op:refused")
+        part.state((key, "after-history", name), nontrivial=True)
+        for label, j in (("min", mn), ("max", mx)):
+            check_instance(part, copy.deepcopy(j), key, dict(case, after=name, instance=label), "after-history/" + name.split("(")[0], collect)
+
+
 def run_case(case, part):
     register_custom()
     env.reset()
@@ -248,6 +302,9 @@ def run_case(case, part):
     part.state((key, case["kind"], case.get("label", "")), nontrivial=True)
     if case["kind"] == "uncanonicalizable":
         return run_uncanonicalizable(case, part)
+    if case["kind"] == "after-history":
+        run_after_history(case, part, collect)
+        return collect
     if case["kind"] == "generated":
         for k2, l2, i2, w2, loc2 in harness.all_cases("2.1", pairs=case.get("pairs", False), keys=[key]):
             if case.get("label") and l2 != case["label"]:
@@ -347,7 +404,9 @@ def run_case(case, part):
 
 
 def replay(case, part):
-    c = {k: v for k, v in case.items() if k not in ("form", "canonical", "subset", "prop", "index")}
+    c = {k: v for k, v in case.items() if k not in ("form", "canonical", "subset", "prop", "index", "instance")}
+    if c.get("kind") == "after-history":
+        c["op"] = c.pop("after", None)
     run_case(c, part)
 
 
@@ -360,9 +419,11 @@ def run(run):
     for key in keys:
         if key.startswith("observables:x-verif"):
             cases.append({"kind": "custom", "key": key})
+            cases.append({"kind": "after-history", "key": key})
             continue
         cases.append({"kind": "generated", "key": key, "pairs": th})
         cases.append({"kind": "subsets", "key": key})
+        cases.append({"kind": "after-history", "key": key})
         if "hashes" in sp.classes[key]["properties"]:
             cases.append({"kind": "hashes", "key": key})
         if "extensions" in sp.classes[key]["id_contributing"]:
